@@ -42,8 +42,18 @@ read -r TESTS WITH WITHOUT < "$SCR/confirm.txt" 2>/dev/null || { TESTS=0; WITH=-
 
 RESULTS="{"
 if [ $CONF -eq 0 ]; then
-  if ! git -C /repo diff --quiet; then log "/repo has uncommitted changes, refusing"; exit 2; fi
-  git -C /repo apply "$OUT/patch.diff" || { log "cannot apply to /repo"; exit 2; }
+  # The checks run against a scratch worktree with the patch applied (VERIF_REPO),
+  # equivalent to `git -C /repo apply` + run + `git -C /repo checkout -- .` but safe
+  # while long background runs rebuild from /repo.  EVAL_IN_REPO=1 patches /repo itself.
+  WT2=$SCR/wt-check
+  if [ "${EVAL_IN_REPO:-0}" = "1" ]; then
+    if ! git -C /repo diff --quiet; then log "/repo has uncommitted changes, refusing"; exit 2; fi
+    git -C /repo apply "$OUT/patch.diff" || { log "cannot apply to /repo"; exit 2; }
+    export VERIF_REPO=/repo
+  else
+    git -C /repo worktree add -q --detach "$WT2" HEAD && ( cd "$WT2" && git apply "$OUT/patch.diff" ) || { log "cannot prepare scratch worktree"; exit 2; }
+    export VERIF_REPO=$WT2 VERIF_BUILD=$SCR/build
+  fi
   for P in "${PROPS[@]}"; do
     T0=$(date +%s)
     VERIF_EVIDENCE=$SCR/evidence VERIF_REPLAYS=$SCR/replays "$HERE/check" "$P" quick > "$SCR/check_$P.log" 2>&1
@@ -58,7 +68,7 @@ if [ $CONF -eq 0 ]; then
     F=$(ls "$SCR/replays"/$P-*.plan 2>/dev/null | head -1)
     [ -n "$F" ] && cp "$F" "$OUT/caught-by-$P.plan"
   done
-  git -C /repo checkout -- .
+  if [ "${EVAL_IN_REPO:-0}" = "1" ]; then git -C /repo checkout -- .; else git -C /repo worktree remove --force "$WT2"; fi
 fi
 RESULTS="${RESULTS%,}}"
 cat > "$OUT/meta.json" <<EOF
@@ -67,7 +77,7 @@ cat > "$OUT/meta.json" <<EOF
  "source": "independent sub-agent, given only the property text and its own scratch worktree of /repo",
  "breaks_property": "${PROPS[0]}",
  "confirmed": { "patch_applies_and_builds": $( [ "$WITH" != "-1" ] && echo true || echo false ), "test_suite_passes_with_patch": $( [ "$TESTS" = "1" ] && echo true || echo false ), "demo_exit_with_patch": $WITH, "demo_exit_without_patch": $WITHOUT },
- "what_i_ran": "tools/eval_seeded.sh: fresh scratch worktree of /repo HEAD -> git apply patch.diff -> cmake build -> ctest -> demo.sh (must fail) -> revert -> rebuild -> demo.sh (must pass); then git -C /repo apply patch.diff; ./check <property> quick (evidence/replays redirected to scratch); git -C /repo checkout -- .",
+ "what_i_ran": "tools/eval_seeded.sh: fresh scratch worktree of /repo HEAD -> git apply patch.diff -> cmake build -> ctest -> demo.sh (must fail) -> revert -> rebuild -> demo.sh (must pass); then ./check <property> quick against the patched tree (scratch worktree via VERIF_REPO, or /repo itself with EVAL_IN_REPO=1: git -C /repo apply patch.diff ... git -C /repo checkout -- .), evidence/replays redirected to scratch",
  "needs_to_manifest": "see NOTES.md",
  "check_results": $RESULTS
 }
